@@ -624,6 +624,8 @@ def sym_method(ctx, obj, name):
             return _M(lambda: bit_length(ctx, obj), 'bit_length')
         if name == 'real':
             return obj
+        if not hasattr(0, name):
+            py_raise(AttributeError("'int' object has no attribute '%s'" % name))
     if isinstance(obj, SSeq):
         def index(x):
             raise Unsupported('index on symbolic sequence')
